@@ -59,6 +59,9 @@ var library = []gen.ListSpec{
 	wideStar(false),
 }
 
+// libraryFileKinds: nodes that are FILE nodes in a library list (index -> identifiers) and PACKAGE nodes everywhere else.
+var libraryFileKinds = map[int][]string{2: {"b"}, 3: {"c"}, 5: {"a"}, 7: {"d"}}
+
 // wideStar: node a with 40 contained leaves (size class: thresholds and capacity effects are invisible to 3-node lists).
 func wideStar(reversed bool) gen.ListSpec {
 	var leaves []string
@@ -254,6 +257,12 @@ func replayPath(inits []gen.ListSpec, all []op, s state) (*sbom.NodeList, []*sbo
 	lib := make([]*sbom.NodeList, len(library))
 	for i := range library {
 		lib[i] = build(library[i])
+		// the same identifier described as another kind of node in some argument lists (a file here, a package there)
+		for _, id := range libraryFileKinds[i] {
+			if n := lib[i].GetNodeByID(id); n != nil {
+				n.Type = sbom.Node_FILE
+			}
+		}
 	}
 	cur := build(inits[s.init])
 	for _, oi := range s.path {
